@@ -49,6 +49,13 @@ func NotifyCIBAGrant(
 		return sendClientNotification(ctx, client, session, resp)
 	}
 
+	// No tokens are issued for an authentication request that has expired,
+	// the same as when the client polls the token endpoint.
+	if session.IsExpired() {
+		return goidc.NewError(goidc.ErrorCodeExpiredToken,
+			"the authorization request id is expired")
+	}
+
 	// The client is configured to have the token information pushed, so it won't
 	// request the token endpoint later.
 	// In that case, the session can be deleted.
